@@ -1034,6 +1034,9 @@ class Executor:
             if lh is not None:
                 return lh
             fi = self.repo.resolve_method(cls, name) if cls else None
+            if cls and fi is None and self.repo.find_class(cls) is None:
+                # object of a library class (DataFrame, ...): methods are resolved by LIBSPEC hooks
+                return v_py(('bound', obj, name))
             if fi is not None:
                 if 'property' in fi.decorators:
                     return self.call_repo_function(st, fi, [obj], {}, node, recv_cls=cls)
@@ -1053,8 +1056,9 @@ class Executor:
                                 return self.ev(st, c.class_attrs[name])
                             finally:
                                 self.frames.pop()
-            if not st.spec or True:
-                st.assume_type(v)
+            st.assume_type(v)
+            if v.kind == 'dict' and st.use_old == 0 and as_ref(v).get_id() not in st.fresh:
+                pass
             return v
         # any: treat as an object reference
         v = V(st.read(as_ref(obj), name), ANY)
@@ -1213,7 +1217,9 @@ class Executor:
         if isinstance(op, ast.Add):
             if lk == 'str' and rk == 'str':
                 return self.lib.str_concat(self, st, l, r)
-            if lk == 'list' and rk == 'list':
+            def seqlike(v):
+                return v.kind == 'list' or (v.kind == 'py' and v.py[0] == 'specseq')
+            if seqlike(l) and seqlike(r):
                 return self.lib.list_concat(self, st, l, r)
             if lk == 'tuple' and rk == 'tuple' and l.items is not None and r.items is not None:
                 return v_tuple(l.items + r.items)
@@ -1540,6 +1546,9 @@ class Executor:
         kwargs: dict[str, V] = {}
         for kw in node.keywords:
             if kw.arg is None:
+                if fv.kind == 'py' and fv.py == ('builtin', 'dict') and len(args) == 1 and len(node.keywords) == 1:
+                    # dict(a, **b): right-biased merge
+                    return self.lib.dict_merge(self, st, args[0], self.ev(st, kw.value))
                 raise Unsupported('**kwargs call')
             kwargs[kw.arg] = self.ev(st, kw.value)
         return self.call(st, fv, args, kwargs, node)
@@ -1828,6 +1837,9 @@ class Executor:
         try:
             bound = self.bind_params(st, fi.node.args, args, kwargs, fi)
             env = dict(st.locals)
+            for _v in env.values():
+                if _v.kind == 'dict' and not st.spec:
+                    st.assume_wf_dict(_v)
             for nme, tsrc in con.types.items():
                 if nme in env:
                     env[nme] = env[nme].with_ty(self.ptype(tsrc)) if env[nme].kind in ('any', 'opt') else env[nme]
